@@ -1,5 +1,6 @@
 import Holpy.C13.Proofs
 import Holpy.C13.Goal
+import Holpy.C13.Numbering
 /-
 C13 — property theorems about the structural model of Holpy/C13/Model.lean (numbering and
 citations of a proof state under the editing operations).  What is proved is the *citation* half
@@ -46,6 +47,83 @@ visible from `old` (as `find_goal` guarantees). -/
 theorem replace_preserves_citations (o n : IId) (hon : canDependOn o n = true) (l : List Item)
     (hw : citesOkList l = true) : citesOkList (replaceList o n l) = true :=
   citesOkList_replace o n hon l hw
+
+theorem wf_iff (s : Proof) : wf s = true ↔
+    numberedFrom [] 0 s = true ∧ citesOkList s = true ∧ subOkList s = true := by
+  simp [wf, Bool.and_eq_true, and_assoc]
+
+/-- `add_line_before(id, n)` before an existing line preserves well-formedness: every line still
+carries the id of the position it sits at (contiguous numbering at every depth), every citation
+still satisfies `can_depend_on`. -/
+theorem add_line_preserves_wf (s s' : Proof) (id : IId) (n : Nat) (cur : Item) (hw : wf s = true)
+    (hex : findItem s id = some cur) (h : addLineBefore s id n = .ok s') : wf s' = true := by
+  rw [wf_iff] at hw ⊢
+  exact ⟨numbered_addLineBefore s s' id n cur hw.1 hex h, citesOk_addLineBefore s s' id n hw.2.1 h,
+    subOk_addLineBefore s s' id n hw.2.2 h⟩
+
+/-- `set_line(id, …)` with admissible citations preserves well-formedness. -/
+theorem set_line_preserves_wf (s s' : Proof) (id : IId) (r : Nat) (p : List IId) (th : Option Seq)
+    (hw : wf s = true) (hp : ∀ x ∈ p, canDependOn id x = true)
+    (h : setLine s id r p th = .ok s') : wf s' = true := by
+  rw [wf_iff] at hw ⊢
+  exact ⟨numbered_setLine s s' id r p th hw.1 h, citesOk_setLine s s' id r p th hw.2.1 hp h,
+    subOk_setLine s s' id r p th hw.2.2 h⟩
+
+/-- `remove_line(id)` of an existing line keeps the numbering contiguous.  Partial: that the
+citations stay admissible needs that no remaining line cites `id` (what `replace_id` establishes
+first); that half is not proved. -/
+theorem remove_line_preserves_numbering_partial (s s' : Proof) (id : IId) (cur : Item)
+    (hw : numberedFrom [] 0 s = true) (hex : findItem s id = some cur)
+    (h : removeLine s id = .ok s') : numberedFrom [] 0 s' = true :=
+  numbered_removeLine s s' id cur hw hex h
+
+/-- In a well-formed state every citation of every line resolves: the line found at position `q`
+carries id `q`, each of its citations `p` satisfies `can_depend_on(q, p)` and a line exists at `p`
+(an earlier line of the same proof or of an enclosing one). -/
+theorem wf_citation_resolves (s : Proof) (q : IId) (it : Item) (hw : wf s = true)
+    (hq : findItem s q = some it) :
+    it.id = q ∧ ∀ p ∈ it.prevs, canDependOn q p = true ∧ ∃ it', findItem s p = some it' := by
+  rw [wf_iff] at hw
+  have hid : it.id = q := by simpa using numbered_findItem q [] s it hw.1 hq
+  refine ⟨hid, fun p hp => ?_⟩
+  have hc := citesOk_findItem q s it hw.2.1 hq p hp
+  rw [hid] at hc
+  exact ⟨hc, visible_line_exists p q s it hq hc⟩
+
+/-- Preconditions under which `edits_preserve_wf_partial` covers an operation: insertion before an
+existing line; a line set with citations that satisfy `can_depend_on` (what `apply_method` asserts
+of the selected facts). -/
+def wfSafe (s : Proof) : Op → Prop
+  | .addLineBefore id _ => ∃ cur, findItem s id = some cur
+  | .setLine id _ p _ => ∀ x ∈ p, canDependOn id x = true
+  | _ => False
+
+def wfSafeRun : Proof → List Op → Prop
+  | _, [] => True
+  | s, op :: ops => wfSafe s op ∧ ∀ s1, step s op = .ok s1 → wfSafeRun s1 ops
+
+/-- Every completed sequence of `add_line_before` / `set_line` calls that meet `wfSafe` keeps the
+state well-formed (numbering and citations).  Partial: `remove_line`, `replace_id` and
+`apply_tactic` are not covered by the sequence theorem. -/
+theorem edits_preserve_wf_partial : ∀ (ops : List Op) (s s' : Proof), wf s = true →
+    wfSafeRun s ops → run s ops = .ok s' → wf s' = true
+  | [], s, s', hw, _, h => by simp [run] at h; subst h; exact hw
+  | op :: ops, s, s', hw, hs, h => by
+    simp only [run] at h
+    split at h
+    · rename_i s1 h1
+      have hop := hs.1
+      have hw1 : wf s1 = true := by
+        cases op with
+        | addLineBefore id n =>
+          obtain ⟨cur, hc⟩ := hop
+          exact add_line_preserves_wf s s1 id n cur hw hc h1
+        | setLine id r p th => exact set_line_preserves_wf s s1 id r p th hw hop h1
+        | removeLine id => exact absurd hop (by simp [wfSafe])
+        | replaceId o n => exact absurd hop (by simp [wfSafe])
+        | applyTactic id new => exact absurd hop (by simp [wfSafe])
+      exact edits_preserve_wf_partial ops s1 s' hw1 (hs.2 s1 h1) h
+    · simp at h
 
 /-- Operations covered by `edits_preserve_citations_partial`. -/
 def citeSafe : Op → Prop
@@ -126,6 +204,15 @@ example : (match run s1 [.addLineBefore [0, 1] 2, .setLine [0, 1] 6 [[0, 0]] (so
 
 example : citeSafe (.setLine [0, 1] 6 [[0, 0]] (some ⟨9, [2]⟩)) := by
   simp [citeSafe]; decide
+
+example : wfSafeRun s1 [.addLineBefore [1] 1, .setLine [1] 6 [[0]] (some ⟨9, []⟩)] := by
+  refine ⟨⟨_, rfl⟩, fun a _ => ⟨?_, fun _ _ => trivial⟩⟩
+  intro x hx
+  simp at hx
+  subst hx
+  decide
+
+example : ∃ it, findItem s1 [0, 2] = some it ∧ it.prevs = [[0, 0], [0, 1]] := ⟨_, rfl, rfl⟩
 
 example : safeRun s1 [.addLineBefore [1] 1, .addLineBefore [0, 1] 1, .removeLine [0, 1]] := by
   simp [safeRun, goalSafe, targetOk, s1]
